@@ -278,9 +278,9 @@ Qed.
 
 Lemma event_eqb_eq : forall a b, event_eqb a b = true <-> a = b.
 Proof.
-  intros [k1 t1 p1 i1 c1 v1] [k2 t2 p2 i2 c2 v2]. unfold event_eqb; cbn [e_k e_ts e_pt e_id e_ctx e_v].
+  intros [k1 t1 p1 i1 c1 v1 y1] [k2 t2 p2 i2 c2 v2 y2]. unfold event_eqb; cbn [e_k e_ts e_pt e_id e_ctx e_v e_type].
   rewrite !andb_true_iff, !N.eqb_eq. split.
-  - intros [[[[[-> ->] ->] ->] ->] ->]. reflexivity.
+  - intros [[[[[[-> ->] ->] ->] ->] ->] ->]. reflexivity.
   - intros H. inversion H. tauto.
 Qed.
 
@@ -1142,6 +1142,80 @@ Proof.
   destruct (remember_frames q (st_layout st) ch); cbn [snd]; discriminate.
 Qed.
 
+(** ** Several views side by side: the frame property *)
+
+Definition op_view (o : op) : option N :=
+  match o with
+  | OSetLayout _ => None
+  | ORemember n _ _ => Some n
+  | OShow n _ => Some n
+  | OShowFail n _ => Some n
+  end.
+
+Lemma lookup_app_other : forall es a e n, a <> n -> lookup n (es ++ [(a, e)]) = lookup n es.
+Proof.
+  intros es a e n H. induction es as [|[x y] r IH]; cbn [lookup app].
+  - destruct (a =? n) eqn:E; [apply N.eqb_eq in E; contradiction|reflexivity].
+  - destruct (x =? n); [reflexivity|exact IH].
+Qed.
+
+(** an operation on view [a] leaves the catalog entry of every other view [b] — its query, its store (frames, hence
+    the store's mark) and its catalog mark — exactly as it was; a layout change touches no entry at all *)
+Theorem frame_property : forall st o b, op_view o <> Some b ->
+  lookup b (st_entries (fst (step st o))) = lookup b (st_entries st).
+Proof.
+  intros st o b H. destruct o as [l|a q ch|a ch|a ch]; cbn [op_view] in H; cbn [step].
+  - reflexivity.
+  - destruct (lookup a (st_entries st)); [reflexivity|].
+    destruct (remember_frames q (st_layout st) ch); [|reflexivity].
+    cbn [fst st_entries]. apply lookup_app_other. intro E. apply H. rewrite E. reflexivity.
+  - destruct (lookup a (st_entries st)) as [en|]; [|reflexivity].
+    destruct (show_frames (n_q en) (n_frames en) (n_cat en) (st_layout st) ch); [|reflexivity].
+    cbn [fst st_entries]. rewrite lookup_update.
+    destruct (b =? a) eqn:E; [apply N.eqb_eq in E; subst; exfalso; apply H; reflexivity|reflexivity].
+  - destruct (lookup a (st_entries st)) as [en|]; [|reflexivity].
+    destruct (show_fail_frames (n_q en) (n_frames en) (n_cat en) (st_layout st) ch) as [[ap rest]|]; [|reflexivity].
+    cbn [fst st_entries]. rewrite lookup_update.
+    destruct (b =? a) eqn:E; [apply N.eqb_eq in E; subst; exfalso; apply H; reflexivity|reflexivity].
+Qed.
+
+Definition run_state (st : state) (ops : list op) : state := fold_left (fun s o => fst (step s o)) ops st.
+
+(** … for all histories: whatever is done to other views (REMEMBER, SHOW, failed SHOW, any number of times, under any
+    other names) and however the layout changes, the entry of [b] stays *)
+Theorem frame_property_history : forall ops st b,
+  (forall o, In o ops -> op_view o <> Some b) ->
+  lookup b (st_entries (run_state st ops)) = lookup b (st_entries st).
+Proof.
+  induction ops as [|o r IH]; intros st b H; cbn [run_state fold_left]; [reflexivity|].
+  fold (run_state (fst (step st o)) r). rewrite IH.
+  - apply frame_property. apply H. left. reflexivity.
+  - intros o' Ho'. apply H. right. exact Ho'.
+Qed.
+
+(** … and what an operation on view [a] answers and does to [a] depends on the layout and on [a]'s own entry only:
+    the other views cannot influence it *)
+Theorem view_independent : forall st st' o a,
+  op_view o = Some a ->
+  st_layout st = st_layout st' ->
+  lookup a (st_entries st) = lookup a (st_entries st') ->
+  snd (step st o) = snd (step st' o) /\
+  lookup a (st_entries (fst (step st o))) = lookup a (st_entries (fst (step st' o))).
+Proof.
+  intros st st' o a Hv Hl Hk. destruct o as [l|n q ch|n ch|n ch]; cbn [op_view] in Hv; inversion Hv; subst n; cbn [step].
+  - rewrite <- Hk, <- Hl. destruct (lookup a (st_entries st)) eqn:E; [split; [reflexivity|cbn [fst]; congruence]|].
+    destruct (remember_frames q (st_layout st) ch); cbn [fst snd st_entries]; [|split; [reflexivity|congruence]].
+    split; [reflexivity|]. rewrite !lookup_app_none by congruence. rewrite N.eqb_refl. reflexivity.
+  - rewrite <- Hk, <- Hl. destruct (lookup a (st_entries st)) as [en|] eqn:E; [|split; [reflexivity|cbn [fst]; congruence]].
+    destruct (show_frames (n_q en) (n_frames en) (n_cat en) (st_layout st) ch); cbn [fst snd st_entries];
+      [|split; [reflexivity|congruence]].
+    split; [reflexivity|]. rewrite !lookup_update, N.eqb_refl, E, <- Hk. reflexivity.
+  - rewrite <- Hk, <- Hl. destruct (lookup a (st_entries st)) as [en|] eqn:E; [|split; [reflexivity|cbn [fst]; congruence]].
+    destruct (show_fail_frames (n_q en) (n_frames en) (n_cat en) (st_layout st) ch) as [[ap rest]|]; cbn [fst snd st_entries];
+      [|split; [reflexivity|congruence]].
+    split; [reflexivity|]. rewrite !lookup_update, N.eqb_refl, E, <- Hk. reflexivity.
+Qed.
+
 (** ** A clock condition that keeps new events above every mark *)
 
 Lemma max_of_le : forall f l b, (forall e, In e l -> f e <= b) -> max_of f l <= b.
@@ -1209,8 +1283,8 @@ Fixpoint side_ok (st : state) (ops : list op) : bool :=
               && side_ok (fst (step st o)) r
   end.
 
-Definition q_all : query := mkQuery None None None TCore true None.
-Definition ev (k ts pt id : N) : event := mkEvent k ts pt id 0 0.
+Definition q_all : query := mkQuery None None None TCore true None 0.
+Definition ev (k ts pt id : N) : event := mkEvent k ts pt id 0 0 0.
 
 (** (1) formerly MarkOfLastFrame (fixed by c71d768; kept as a positive example below) — one shard, an older event in a segment, a newer one in the memtable; REMEMBER
     receives the memtable batch first, the segment batch last: the mark is the segment's, the next SHOW
@@ -1222,7 +1296,7 @@ Definition w_lastframe : list op :=
 
 (** (2) PayloadTimeField — USING pt: an event whose payload time is above the core-timestamp mark is
     delivered again by every SHOW; an event arriving later with a payload time below the mark never shows. *)
-Definition q_pt : query := mkQuery None None None TPayload true None.
+Definition q_pt : query := mkQuery None None None TPayload true None 0.
 Definition w_payload_dup : list op :=
   [ OSetLayout [mkShard [ev 1 10 50 100] []];
     ORemember 1 q_pt [(0, [])];
@@ -1234,7 +1308,7 @@ Definition w_payload_lost : list op :=
     OShow 1 [] ].
 (** … and with RETURN omitting the time field the watermark filter is off: the raw delta is appended to the
     frames on every SHOW and comes back twice from the second SHOW on *)
-Definition q_pt_hidden : query := mkQuery None None None TPayload false None.
+Definition q_pt_hidden : query := mkQuery None None None TPayload false None 0.
 Definition w_payload_hidden : list op :=
   [ OSetLayout [mkShard [ev 1 10 50 100] []];
     ORemember 1 q_pt_hidden [(0, [])];
@@ -1259,7 +1333,7 @@ Definition w_component_max : list op :=
     OShow 1 [] ].
 
 (** (4) LimitNotReapplied — LIMIT is applied when REMEMBER stores, never when SHOW answers. *)
-Definition q_lim1 : query := mkQuery None None None TCore true (Some 1).
+Definition q_lim1 : query := mkQuery None None None TCore true (Some 1) 0.
 Definition w_limit : list op :=
   [ OSetLayout [mkShard [ev 1 10 0 100] []];
     ORemember 1 q_lim1 [(0, [1])];
@@ -1341,13 +1415,13 @@ Proof. exists w_payload_dup. destruct show_eq_query_refuted_payload_dup as [H [_
 (** ** The hypotheses of the positive theorems are satisfiable: a history over two shards with events before
     REMEMBER, between REMEMBER and SHOW and between SHOWs, a flush, a compaction-like re-zoning, an event on
     the high-water second, WHERE / FOR / SINCE — no class is flagged and every SHOW is non-trivial. *)
-Definition q_ex : query := mkQuery (Some 0) (Some (CGe, 1)) (Some 5) TCore true None.
-Definition x1 := mkEvent 1 10 0 4196 0 1.
-Definition x2 := mkEvent 2 10 0 8000 0 0.   (* fails WHERE *)
-Definition x3 := mkEvent 3 11 0 9000 0 2.
-Definition x4 := mkEvent 4 11 0 9500 0 3.   (* same second as the mark *)
-Definition x5 := mkEvent 5 12 0 12000 1 5.  (* other context *)
-Definition x6 := mkEvent 6 13 0 13000 0 7.
+Definition q_ex : query := mkQuery (Some 0) (Some (CGe, 1)) (Some 5) TCore true None 0.
+Definition x1 := mkEvent 1 10 0 4196 0 1 0.
+Definition x2 := mkEvent 2 10 0 8000 0 0 0.   (* fails WHERE *)
+Definition x3 := mkEvent 3 11 0 9000 0 2 0.
+Definition x4 := mkEvent 4 11 0 9500 0 3 0.   (* same second as the mark *)
+Definition x5 := mkEvent 5 12 0 12000 1 5 0.  (* other context *)
+Definition x6 := mkEvent 6 13 0 13000 0 7 0.
 Definition ex_ops : list op :=
   [ OSetLayout [mkShard [x2] []; mkShard [x1] []];
     ORemember 7 q_ex [(2, [])];
@@ -1398,6 +1472,38 @@ Example ex_fail_outputs :
   = [ ([], (0, 0), (0, 0)); ([], (0, 0), (0, 0)); ([], (10, 100), (10, 100)); ([], (0, 0), (0, 0));
       ([2], (11, 200), (10, 100)); ([1; 2], (11, 200), (10, 100)); ([], (0, 0), (0, 0));
       ([3], (12, 300), (10, 100)); ([1; 2; 3; 4], (13, 400), (13, 400)); ([1; 2; 3; 4], (13, 400), (13, 400)) ].
+Proof. vm_compute. reflexivity. Qed.
+
+(** several views side by side: two views with different WHERE constants over the same type, one over another type;
+    interleaved REMEMBER / STORE / re-zoning / SHOW a / failed SHOW b / SHOW c: no class, every SHOW exact *)
+Definition q_ge1 : query := mkQuery None (Some (CGe, 1)) None TCore true None 0.
+Definition q_eq0 : query := mkQuery None (Some (CEq, 0)) None TCore true None 0.
+Definition q_ty1 : query := mkQuery None None None TCore true None 1.
+Definition z1 := mkEvent 1 10 0 100 0 1 0.
+Definition z2 := mkEvent 2 10 0 200 0 0 0.
+Definition z3 := mkEvent 3 11 0 300 0 2 1.
+Definition z4 := mkEvent 4 12 0 400 0 3 0.
+Definition z5 := mkEvent 5 12 0 500 0 0 1.
+Definition ex_views_ops : list op :=
+  [ OSetLayout [mkShard [z1; z2; z3] []];
+    ORemember 1 q_ge1 [(0, [])];
+    ORemember 2 q_eq0 [(0, [])];
+    ORemember 3 q_ty1 [(0, [])];
+    ORemember 2 q_ge1 [(0, [])];
+    OSetLayout [mkShard [z4; z5] [mkSeg 11 [[z1; z2]]; mkSeg 11 [[z3]]]];
+    OShow 1 [(0, [])];
+    OShowFail 3 [(0, [])];
+    OShow 2 [];
+    OShow 3 [];
+    OShow 1 [] ].
+
+Example ex_views_no_known : no_known init ex_views_ops.
+Proof. cbn [no_known ex_views_ops]. repeat split; vm_compute; reflexivity. Qed.
+
+Example ex_views_outputs :
+  map (fun o => match o with ObsShow out _ _ _ => map e_k out | ObsRejected => [99] | ObsShowFailed ap _ _ => 77 :: map e_k (concat ap) | _ => [] end)
+      (run init ex_views_ops)
+  = [[]; []; []; []; [99]; []; [1; 4]; [77; 5]; [2]; [3; 5]; [1; 4]].
 Proof. vm_compute. reflexivity. Qed.
 
 Example ex_reach : reach (fst (step init (OSetLayout [mkShard [x2] []; mkShard [x1] []]))).
